@@ -198,7 +198,13 @@ def groupop_pool(rng, crys, D, sibs, where, nbase):
     pool.add(GroupOp.ident(crys.basis), op_value(crys, GroupOp.ident(crys.basis), D), "ident", "GroupOp.ident")
     for sn, (c2, D2) in enumerate(sibs):
         G2 = H.sorted_ops(c2)
-        for n, g in enumerate(G2 if len(G2) <= nbase else [G2[0]] + rng.sample(G2[1:], nbase - 1)):
+        # prefer the other crystal's operations with the SAME rotation as a pooled one (they differ, if at all, only
+        # in translation and/or atom permutation), then a few unrelated ones
+        rots = set(np.asarray(g.rot).tobytes() for g in base)
+        match = [g for g in G2 if np.asarray(g.rot).tobytes() in rots]
+        rest = [g for g in G2 if np.asarray(g.rot).tobytes() not in rots]
+        pick = match[:nbase] + rng.sample(rest, min(len(rest), 2))
+        for n, g in enumerate(pick):
             pool.add(g, op_value(c2, g, D2), "other-crystal-op", "sibling%d.G[%d]" % (sn, n))
     add_foreign(pool)
     return pool
@@ -540,13 +546,13 @@ def run(ctx):
                 "a non-identity operation")
     names = list(worlds.CATALOGUE)
     if quick:
-        names = ["square2sp", "honeycomb", "polarrect", "kagome", "rect2site", "squarelieb", "sc", "b2", "fcc",
-                 "diamond", "hcp", "l12", "rocksalt", "tric2", "wurtzite", "omega", "tet2", "monodeco", "fccoct"]
+        names = ["square2sp", "honeycomb", "polarrect", "kagome", "squarelieb", "b2", "diamond", "hcp", "l12",
+                 "tric2", "wurtzite", "tet2", "monodeco", "fccoct"]
     wl = [dict(worlds.CATALOGUE[n], name=n) for n in names]
-    for _ in range(6 if quick else 60):
+    for _ in range(4 if quick else 60):
         wl.append(worlds.random_world(rng, maxatoms=4))
-    nbase = 10 if quick else 16
-    npool_ps = 14 if quick else 24
+    nbase = 8 if quick else 16
+    npool_ps = 11 if quick else 24
     report = Reporter(ctx, cap=4)
     cases, meta = [], []
     siblings_dropped = 0
@@ -596,7 +602,7 @@ def run(ctx):
             pools.append(guarded("PairState", fam, lambda: pairstate_eq_pool(rng, crys, chem, pss, fam, G)))
             res = guarded("PairState arithmetic", fam,
                           lambda: pairstate_algebra_case(rng, crys, ow, chem, pss, G, 3 if quick else 6,
-                                                         60 if quick else 200))
+                                                         25 if quick else 200))
             if res is not None:
                 case, unexpected = res
                 for u in sorted(set(unexpected))[:3]:
@@ -608,7 +614,7 @@ def run(ctx):
         for p in pools:
             if p is None:
                 continue
-            p.trim(rng, 72 if quick else 110)
+            p.trim(rng, 56 if quick else 110)
             cases.append(p.case())
             meta.append(("eq", fam, w, p, None))
     for n in range(6 if quick else 40):
@@ -616,6 +622,16 @@ def run(ctx):
         cases.append(p.case())
         meta.append(("eq", "vtk", None, p, None))
 
+    # the model-level lemmas are re-proved on the first pool of every kind/type and on every 4th pool after that
+    seen_kinds = {}
+    for c in cases:
+        kk = (c["kind"], c["type"])
+        c["lemma"] = 1 if seen_kinds.get(kk, 0) % 4 == 0 else 0
+        seen_kinds[kk] = seen_kinds.get(kk, 0) + 1
+    # big cases first within the round-robin sharding, so that the shards finish together
+    order = sorted(range(len(cases)), key=lambda i: -(len(cases[i].get("evals", ())) + cases[i].get("n", 0) ** 2 // 4))
+    cases = [cases[i] for i in order]
+    meta = [meta[i] for i in order]
     fails, infos, results = tlc.run_cases("Check_C36", cases, shards=8 if quick else 14, timeout=2400)
     for r in results:
         ctx.add_model(r)
